@@ -262,8 +262,8 @@ func c14GenA(r *core.Rng, idx int) c14Case {
 	leaf := func(n string, extra ...*yang.Stmt) *yang.Stmt {
 		return yang.S("leaf", n, append([]*yang.Stmt{yang.S("type", "string")}, extra...)...)
 	}
-	variant := (idx / 3) % 22
-	bad := (idx/3/22)%2 == 0 // (both polarities of every variant: the polarity changes once per cycle over the variants)
+	variant := (idx / 3) % 24
+	bad := (idx/3/24)%2 == 0 // (both polarities of every variant: the polarity changes once per cycle over the variants)
 	c.expect = "accept"
 	if bad {
 		c.expect = "reject"
@@ -297,6 +297,27 @@ func c14GenA(r *core.Rng, idx int) c14Case {
 		}
 		top.Add(yang.S("container", "cf", yang.S("config", "false"), li))
 		c.what = "config true list under config false"
+	case 22, 23: // the rule holds for a grouping's own module also when the grouping is used from another module only
+		st := "current"
+		if bad {
+			st = core.Pick(r, []string{"deprecated", "obsolete"})
+		}
+		lib := yang.S("module", "st-lib", yang.S("namespace", "urn:verif:st-lib"), yang.S("prefix", "sl"))
+		if variant == 22 {
+			lib.Add(yang.S("typedef", "old-t", yang.S("type", "string"), yang.S("status", st)),
+				yang.S("grouping", "g", yang.S("leaf", "x", yang.S("type", "old-t"))))
+			c.what = "leaf of a grouping used from another module whose type is a " + st + " typedef of the grouping's module"
+		} else {
+			lib.Add(yang.S("feature", "old-f", yang.S("status", st)),
+				yang.S("grouping", "g", yang.S("leaf", "x", yang.S("type", "string"), yang.S("if-feature", "old-f"))))
+			ms.Features = append(ms.Features, "st-lib:old-f")
+			c.feats = ms.Features
+			c.what = "leaf of a grouping used from another module with an if-feature on a " + st + " feature of the grouping's module"
+		}
+		ms.Mods = append(ms.Mods, lib)
+		m.Add(yang.S("import", "st-lib", yang.S("prefix", "sl")))
+		top.Add(yang.S("container", "st-use", yang.S("uses", "sl:g")))
+		yang.SortSections(m)
 	case 20: // a refine names its target: a current uses may not refine a deprecated node of a grouping of its module
 		st := "current"
 		if bad {
